@@ -479,7 +479,9 @@ def virtual_cases(draw):
     r = draw(st.integers(1, 6))
     return dict(tier="virtual", retries=r, timeout=draw(st.sampled_from([0.5, 1, 2.5, 6, 0.05, 30, 7.25])),
                 kinds=draw(st.lists(st.sampled_from(KINDS), min_size=r, max_size=r)),
-                fr=draw(st.lists(st.sampled_from([0.001, 0.25, 0.5, 0.9, 0.999, 1.001, 1.5, 3.0]), min_size=r, max_size=r)),
+                # (never a whole multiple of the timeout: a reply that arrives at the very instant a later attempt's deadline expires may
+                # go either way -- the order of two callbacks of one loop iteration is not specified)
+                fr=draw(st.lists(st.sampled_from([0.001, 0.25, 0.5, 0.9, 0.999, 1.001, 1.5, 2.75, 3.25]), min_size=r, max_size=r)),
                 via=draw(st.sampled_from(["send_udp", "send_udp", "client"])),
                 family=draw(st.sampled_from([4, 4, 6])), debug=draw(st.sampled_from([False, False, True])),
                 reply_len=draw(st.sampled_from([0, 0, 1, 2, 127, 128, 484, 1472, 1473, 8192, 65506, MAX_UDP])))
